@@ -350,7 +350,7 @@ func TestAllTokenSequencesToBound(t *testing.T) {
 	rec.Begin(t)
 	rec.Rule(rule + ruleMore)
 	maxLen := rec.Pick(10, 12)
-	var seqs, viable, accepted int
+	var seqs, viable, accepted, realRejected int
 	var walk func(prefix []string)
 	walk = func(prefix []string) {
 		// shard by the fourth token (the first three are forced: grammar IDENT ...)
@@ -389,6 +389,15 @@ func TestAllTokenSequencesToBound(t *testing.T) {
 			if at > 2 {
 				rec.Distinct("rej:" + strings.Join(prefix, " "))
 			}
+			// the last token cannot follow: the real driver loop must not accept the sequence, alone or closed by ";"
+			// (a driver that reads a token differently from the tables, e.g. "}}" as "}" "}", accepts more than the grammar)
+			for _, tail := range [][]string{nil, {";"}} {
+				seq := append(append([]string{}, prefix...), tail...)
+				if racc, _, _ := realParse(seq); racc {
+					rec.Fail(t, "kinds", input{Kinds: seq}, "token sequence %v: Parser.Parse accepts it, but the documented grammar cannot continue after token %d", seq, at)
+				}
+				realRejected++
+			}
 			return
 		}
 		viable++
@@ -405,6 +414,7 @@ func TestAllTokenSequencesToBound(t *testing.T) {
 	rec.Count("dfs_viable_prefixes", viable)
 	rec.Count("dfs_accepted", accepted)
 	rec.Count("dfs_max_len", maxLen)
+	rec.Count("dfs_rejected_sequences_run_through_the_real_driver", realRejected)
 }
 
 func TestRandomLongSequences(t *testing.T) {
@@ -416,7 +426,24 @@ func TestRandomLongSequences(t *testing.T) {
 		nEdits := rapid.IntRange(0, 3).Draw(t, "edits")
 		for e := 0; e < nEdits && len(kinds) > 0; e++ {
 			pos := rapid.IntRange(0, len(kinds)-1).Draw(t, "pos")
-			switch rapid.IntRange(0, 2).Draw(t, "edit") {
+			switch rapid.IntRange(0, 4).Draw(t, "edit") {
+			case 3:
+				// two single brackets become one double bracket (what a scanner makes of them when they touch)
+				for q := pos; q+1 < len(kinds); q++ {
+					if (kinds[q] == "}" && kinds[q+1] == "}") || (kinds[q] == "{" && kinds[q+1] == "{") {
+						kinds = append(kinds[:q], append([]string{kinds[q] + kinds[q]}, kinds[q+2:]...)...)
+						break
+					}
+				}
+			case 4:
+				// one double bracket becomes two single ones
+				for q := pos; q < len(kinds); q++ {
+					if kinds[q] == "}}" || kinds[q] == "{{" {
+						one := kinds[q][:1]
+						kinds = append(kinds[:q], append([]string{one, one}, kinds[q+1:]...)...)
+						break
+					}
+				}
 			case 0:
 				kinds = append(kinds[:pos], kinds[pos+1:]...)
 			case 1:
